@@ -78,6 +78,13 @@ func (c06) Plan(tier string, seed int64) []core.Scenario {
 	for i := 0; i < nW3; i++ {
 		out = append(out, core.Sc("w3").WithN("others", 1+i%3))
 	}
+	nCh := 8
+	if tier == "thorough" {
+		nCh = 120
+	}
+	for i := 0; i < nCh; i++ {
+		out = append(out, core.Sc("churn").WithN("long", 1+i%3).WithN("rounds", 2+i%4).WithN("unary", i%2))
+	}
 	for i := range out {
 		out[i].Seed = seed*15485863 + int64(i)
 		out[i] = out[i].WithN("noise", i%3)
@@ -94,6 +101,8 @@ func (p c06) Run(sc core.Scenario) core.Result {
 		p.pre(sc, r)
 	case "w3":
 		p.w3(sc, r)
+	case "churn":
+		p.churn(sc, r)
 	}
 	return r.Result()
 }
@@ -352,6 +361,112 @@ func (c06) pre(sc core.Scenario, r *core.R) {
 	r.Key(fmt.Sprintf("pre %s others=%d atenq=%d", tr, len(others), sc.I("atenqueue")), true)
 	r.Sig(core.Log.Signature())
 	r.Sample(map[string]interface{}{"transport": tr, "instant": "context cancelled before the call", "siblings": len(others), "handler_ran": env.Svc.Enters(t)})
+}
+
+// churn: short subscriptions are opened and closed by their handlers, one after another, while long-lived
+// subscriptions (and a held unary call) stay open on the same connection. Nobody cancels the long-lived
+// ones, so their handler contexts must stay live throughout; cancelling them at the end must work.
+func (c06) churn(sc core.Scenario, r *core.R) {
+	env := NewEnv(EnvOpt{})
+	defer env.Shutdown()
+	pol := noisePolicy(sc)
+	defer pol.Install()()
+	cl, err := env.NewClient(ClientOpt{})
+	if err != nil {
+		r.Inconclusive("client: %v", err)
+		return
+	}
+	bg := context.Background()
+	type long struct {
+		tok    string
+		cancel context.CancelFunc
+	}
+	var longs []long
+	openLong := func() {
+		ctx, cancel := context.WithCancel(bg)
+		t := Tok("L")
+		ch, err := cl.Sub(ctx, t, 1, svc.SUntilCtx)
+		if err != nil {
+			r.Violate("subscribe-failed", "long-lived subscription failed: %v", err)
+			cancel()
+			return
+		}
+		go func() {
+			for range ch {
+			}
+		}()
+		longs = append(longs, long{t, cancel})
+	}
+	short := func() {
+		t := Tok("S")
+		ch, err := cl.Sub(bg, t, 2, svc.SGoroutine)
+		if err != nil {
+			r.Violate("subscribe-failed", "short subscription failed: %v", err)
+			return
+		}
+		g := drainItems(ch, 0, -1, nil)
+		if !core.WaitCh(g.done, core.Grace) {
+			r.Violate("kept-call-hang", "short subscription did not close")
+		}
+	}
+	var held *member
+	if sc.I("unary") == 1 {
+		held = &member{tok: Tok("u")}
+		env.Svc.Hold(held.tok)
+		held.out = Go(held.tok, func() (string, error) { return cl.Echo(bg, held.tok, "") })
+		env.Svc.WaitEntered(held.tok, core.Grace)
+	}
+	checkLive := func(when string) {
+		for _, l := range longs {
+			if env.Svc.Get(l.tok).Ctx.Err() != nil {
+				r.Violate("cancelled-while-inflight", "churn: the handler context of open subscription %s was cancelled %s although nobody cancelled it", l.tok, when)
+			}
+		}
+		if held != nil && env.Svc.Get(held.tok).Ctx.Err() != nil {
+			r.Violate("cancelled-while-inflight", "churn: the handler context of in-flight call %s was cancelled %s although nobody cancelled it", held.tok, when)
+		}
+	}
+	short()
+	for i := 0; i < sc.I("long"); i++ {
+		openLong()
+		for _, l := range longs {
+			env.Svc.WaitEntered(l.tok, core.Grace)
+		}
+		short()
+		checkLive("after a short subscription was closed by its handler")
+	}
+	for i := 0; i < sc.I("rounds"); i++ {
+		short()
+		p := Tok("p")
+		cl.Echo(bg, p, "")
+		checkLive(fmt.Sprintf("after %d short subscriptions came and went", i+2))
+	}
+	// now cancel them one by one: exactly that one goes
+	for i, l := range longs {
+		l.cancel()
+		ll := l
+		if !core.Eventually(core.Grace, func() bool { return env.Svc.Get(ll.tok).Ctx.Err() != nil }) {
+			r.Violate("cancel-not-delivered", "churn: cancelling long-lived subscription %s did not cancel its handler context", l.tok)
+		}
+		for _, o := range longs[i+1:] {
+			if env.Svc.Get(o.tok).Ctx.Err() != nil {
+				r.Violate("foreign-cancel", "churn: cancelling %s also cancelled %s", l.tok, o.tok)
+			}
+		}
+	}
+	if held != nil {
+		if env.Svc.Get(held.tok).Ctx.Err() != nil {
+			r.Violate("foreign-cancel", "churn: cancelling subscriptions cancelled the in-flight call %s", held.tok)
+		}
+		env.Svc.Release(held.tok)
+		if !held.out.Wait(core.Grace) || held.out.Err != nil {
+			r.Violate("kept-call-failed", "churn: held call failed: %v", held.out.Err)
+		}
+	}
+	r.Key(fmt.Sprintf("churn long=%d rounds=%d unary=%d", sc.I("long"), sc.I("rounds"), sc.I("unary")), true)
+	r.Obs("contexts_live_at_cancel", int64(len(longs)))
+	r.Sig(core.Log.Signature())
+	r.Sample(map[string]interface{}{"scenario": "short subscriptions come and go around long-lived ones", "long_lived": len(longs), "rounds": sc.I("rounds")})
 }
 
 // w3: the cancel is parked (cl.cancel.before) until the response has been delivered.
